@@ -38,14 +38,21 @@ pub struct Caps<I>(pub I);
 
 pub trait BackYes<T> {
     fn back(&mut self) -> Option<Option<T>>;
+    fn nth_back_(&mut self, k: usize) -> Option<Option<T>>;
 }
 impl<T, I: DoubleEndedIterator<Item = T>> BackYes<T> for Caps<I> {
     fn back(&mut self) -> Option<Option<T>> {
         Some(self.0.next_back())
     }
+    fn nth_back_(&mut self, k: usize) -> Option<Option<T>> {
+        Some(self.0.nth_back(k))
+    }
 }
 pub trait BackNo<T> {
     fn back(&mut self) -> Option<Option<T>> {
+        None
+    }
+    fn nth_back_(&mut self, _k: usize) -> Option<Option<T>> {
         None
     }
 }
@@ -86,6 +93,8 @@ pub trait DynIter<T> {
     fn nx(&mut self) -> Option<T>;
     /// `None` = the type does not offer next_back
     fn nb(&mut self) -> Option<Option<T>>;
+    fn nth(&mut self, k: usize) -> Option<T>;
+    fn nth_back(&mut self, k: usize) -> Option<Option<T>>;
     /// `None` = the type does not declare ExactSizeIterator
     fn xlen(&self) -> Option<usize>;
     fn hint(&self) -> (usize, Option<usize>);
@@ -98,6 +107,8 @@ macro_rules! dyn_iter_impl {
         impl<$($g)*> DynIter<$item> for $name<$($u)*> {
             fn nx(&mut self) -> Option<$item> { self.0 .0.next() }
             fn nb(&mut self) -> Option<Option<$item>> { (&mut self.0).back() }
+            fn nth(&mut self, k: usize) -> Option<$item> { self.0 .0.nth(k) }
+            fn nth_back(&mut self, k: usize) -> Option<Option<$item>> { (&mut self.0).nth_back_(k) }
             fn xlen(&self) -> Option<usize> { (&self.0).xlen() }
             fn hint(&self) -> (usize, Option<usize>) { self.0 .0.size_hint() }
             fn fused(&self) -> bool { (&self.0).fused() }
